@@ -247,11 +247,13 @@ def mapspec_str(fn: dict) -> str | None:
 
 
 def internal_shapes_arg(prog: dict) -> dict | None:
-    d = {}
+    d: dict = {}
     for fn in prog["funcs"]:
         if fn["int_axes"] and fn.get("shape_via", "map") == "map":
             for o in fn["outs"]:
-                d[o] = fn_internal_shape(prog, fn)
+                shp = fn_internal_shape(prog, fn)
+                # the documented shorthand for one internal axis is a plain int; used for every other such output
+                d[o] = shp[0] if len(shp) == 1 and (len(o) + len(fn["out_axes"])) % 2 else shp
     return d or None
 
 
